@@ -34,6 +34,8 @@ class XExecutor(Executor):
 
     # -- attributes -----------------------------------------------------------------------------
     def getattr(self, o, attr: str, st):
+        if isinstance(o, Rec) and attr not in o.attrs and (o.cls_name, attr) in getattr(self, "rec_props", {}):
+            return self.rec_props[(o.cls_name, attr)](self, o, st)  # computed attribute of an abstract record (e.g. Path.parent)
         if isinstance(o, Rec) and attr not in o.attrs and self.lookup_native_method(o, attr) is None and o.real_class is not None:
             raw = inspect.getattr_static(o.real_class, attr, None)
             if isinstance(raw, property):
